@@ -28,12 +28,12 @@ def check_C09(c):
     alpha = ['(', ')', 'a', '/', '#', ':', ' ', '\n', '\r', gen.SC['vt'], gen.SC['nel'], gen.SC['ls']]
     for s in gen.all_strings(alpha, _q(c, 3, 4)):
         jobs.append(('tr_stream', dict(text=s)))
-    for ln, cnt in _q(c, [(4, 1500), (6, 1500)], [(5, 60000), (7, 30000)]):
+    for ln, cnt in _q(c, [(4, 1500), (6, 1500)], [(5, 12000), (7, 8000)]):
         for s in gen.sample_strings(c.rng, alpha, ln, cnt):
             jobs.append(('tr_stream', dict(text=s)))
     pool = _graph_texts(c, _q(c, 150, 2000))
     seps = ['\n\n', '\n', '\r\n\r\n', '\r', '\n\n\n', ' ', '', '\n# a comment without metadata\n', '\r\n']
-    for _ in range(_q(c, 1200, 30000)):
+    for _ in range(_q(c, 1200, 10000)):
         k = c.rng.choice([0, 1, 1, 2, 2, 3])
         ts = c.rng.sample(pool, k)
         sep = c.rng.choice(seps)
@@ -45,7 +45,7 @@ def check_C09(c):
         jobs.append(('tr_stream', dict(text=s, model=c.rng.choice(['default', 'amr', 'noop']))))
     for s in corpus.graph_strings():
         jobs.append(('tr_stream', dict(text=s)))
-    for _ in range(_q(c, 700, 15000)):
+    for _ in range(_q(c, 700, 5000)):
         k = c.rng.choice([0, 1, 2, 3])
         jobs.append(('tr_dumps', dict(texts=c.rng.sample(pool, k), model=c.rng.choice(['default', 'amr']), indent=c.rng.choice([None, -1, 0, 2]),
                                       compact=c.rng.random() < 0.3)))
